@@ -168,9 +168,12 @@ func (p *verifPair) checkIdentical(upTo int64, label string) {
 // the leader lost its tail; follower empty because it lost its log), the leader's group for the
 // follower remembers an arbitrary (consumed, acked) pair that an earlier run may have left.
 func verifC08Handshake() {
-	const maxSeq = 4
-	la := int64(verifChoose("leaderAppended", maxSeq+1)) - 1     // -1..3
-	fa := int64(verifChoose("followerAppended", maxSeq+2)) - 1   // -1..4
+	maxSeq, rounds := 4, 3
+	if verifThorough() {
+		maxSeq, rounds = 6, 5 // longer logs, more replication rounds after the fault
+	}
+	la := int64(verifChoose("leaderAppended", maxSeq+1)) - 1      // -1..3
+	fa := int64(verifChoose("followerAppended", maxSeq+2)) - 1    // -1..4
 	consumed := int64(verifChoose("groupConsumed", maxSeq+2)) - 1 // -1..4
 	acked := int64(verifChoose("groupAcked", maxSeq+2)) - 1
 	verifAssume(acked <= consumed)
@@ -189,12 +192,12 @@ func verifC08Handshake() {
 	verifAssert(p.rr.ReplicaIndex() == fnext, "after the handshake the leader resumes at the first position the follower lacks")
 	verifAssert(p.rr.AckIndex() <= p.follower.p.ReplicaAckIndex(), "the leader never treats a position as acknowledged that the follower has not appended")
 	verifAssert(p.rr.AppendIndex() >= fnext, "the leader will not store a new message at a position the follower already holds")
-	p.checkIdentical(maxSeq, "after handshake")
+	p.checkIdentical(int64(maxSeq), "after handshake")
 	// the leader appends a new message and replicates whatever is pending, with an arbitrary fault on the way
 	_ = p.leader.Queue().Put([]byte{'n', 'e', 'w'})
 	p.follower.streamFault = verifChoose("streamFault", 3)
 	verifAssert(p.rr.Connect(), "connect")
-	for round := 0; round < 3; round++ {
+	for round := 0; round < rounds; round++ {
 		if !p.rr.IsReady() || !p.rr.Connect() {
 			continue
 		}
@@ -212,7 +215,7 @@ func verifC08Handshake() {
 		p.follower.streamFault = 0 // faults stop: the channel must resynchronise by itself
 		verifAssert(p.rr.AckIndex() <= p.follower.p.ReplicaAckIndex(), "ack never runs ahead of the follower's log")
 	}
-	p.checkIdentical(maxSeq+1, "after replication")
+	p.checkIdentical(int64(maxSeq)+1, "after replication")
 	fa2 := p.follower.p.ReplicaAckIndex()
 	verifAssert(fa2 >= fa || len(p.follower.resets) > 0, "the follower's log only shrinks when the leader asked for a reset")
 	verifReach("end")
@@ -227,5 +230,5 @@ func verifC08Reach() {
 }
 
 // serialisation of the replica state into the stream's metadata is not the subject (stubs)
-func verifStubJSONMarshal(v interface{}) []byte { return []byte("{}") }
+func verifStubJSONMarshal(v interface{}) []byte                              { return []byte("{}") }
 func verifStubOutgoingCtx(ctx context.Context, kv ...string) context.Context { return ctx }
